@@ -23,9 +23,19 @@ theorem distinctB_iff : ∀ (l : List Text), distinctB l = true ↔ l.Nodup := b
       | false => rfl
       | true => exact absurd (List.contains_iff_mem.mp hc) h1
 
-/-- `attrNamesOk` holds exactly when the upper-cased attribute names are pairwise different -/
+/-- `attrNamesOk` holds exactly when the upper-cased attribute names are pairwise different and none has the form `__x__` -/
 theorem attrNamesOk_iff (u : UC) (attrs : List (Name × Name)) :
-    attrNamesOk u attrs = true ↔ (attrs.map fun a => u.upper a.1).Nodup := distinctB_iff _
+    attrNamesOk u attrs = true ↔ ((attrs.map fun a => u.upper a.1).Nodup ∧ ∀ a ∈ attrs, isDunder a.1 = false) := by
+  unfold attrNamesOk
+  rw [Bool.and_eq_true, distinctB_iff, List.all_eq_true]
+  simp only [Bool.not_eq_true']
+
+theorem isDunder_positional (i : Nat) : isDunder ('_' :: natText i) = false := by
+  cases h : natText i with
+  | nil => exact absurd h (natText_ne_nil i)
+  | cons d ds =>
+    have hd : d ≠ '_' := ne_of_isAsciiDigit (natText_all_digit i d (by rw [h]; simp)) (by decide)
+    simp [isDunder, hd]
 
 theorem upper_digits (u : UC) : ∀ (ds : Text), (∀ c ∈ ds, isAsciiDigit c = true) → u.upper ds = ds := by
   intro ds
@@ -83,8 +93,12 @@ theorem attrNamesOk_positional (u : UC) (values : List Text) :
   have : (inferredAttrs u (positionalNames values.length) values).map (fun a => u.upper a.1) =
       ((inferredAttrs u (positionalNames values.length) values).map (fun a => a.1)).map u.upper := by
     rw [List.map_map]; rfl
-  rw [this, h]
-  exact positionalNames_upper_nodup u values.length
+  refine ⟨by rw [this, h]; exact positionalNames_upper_nodup u values.length, ?_⟩
+  intro a ha
+  have : a.1 ∈ positionalNames values.length := by rw [← h]; exact List.mem_map.mpr ⟨a, ha, rfl⟩
+  simp only [positionalNames, List.mem_map] at this
+  obtain ⟨i, _, hi⟩ := this
+  rw [← hi]; exact isDunder_positional i
 
 /-- an INSERT into an undeclared class makes `define_class` raise only if it is a named one -/
 theorem inferOk_positional (u : UC) (s : BState) (kind : Name) (ns : List Name) (values : List Text) :
